@@ -1,6 +1,7 @@
 package crlrepository
 
 import (
+	"bytes"
 	"crypto/x509"
 	"errors"
 	"fmt"
@@ -224,10 +225,32 @@ func (R *Repository) addNewEmptyEntry(loader crlloader.CRLLoader, identifier str
 	}
 	//if this is persistent store it might be present already
 	if store.IsEmpty() == false {
-		newEntry.Loaded = true
+		newEntry.Loaded = R.persistedCRLCounts(store, chains)
 	}
 	R.crlRepository[identifier] = &newEntry
 	return &newEntry, nil
+}
+
+// persistedCRLCounts tells if the crl found in a persistent store may be used without being loaded again.
+// Under signature validation mode verify it has to be stored together with the certificate which verified it,
+// and this certificate still has to be entitled to sign crls for the given chains.
+// Otherwise the entry starts as not loaded and the crl is fetched and verified like a new one.
+func (R *Repository) persistedCRLCounts(store crlstore.CRLStore, chains *core.CertificateChains) bool {
+	if R.crlConfig.SignatureValidationModeParsed != config.SignatureValidationModeVerify {
+		return true
+	}
+	signer, err := store.GetCRLSignatureCert()
+	if err != nil || signer.Certificate == nil || chains == nil {
+		return false
+	}
+	for _, chain := range chains.CertificateChainList {
+		for _, candidate := range chain.CertificateChainEntryList {
+			if candidate.IsEntitledCRLSigner() && candidate.Certificate != nil && bytes.Equal(candidate.Certificate.Raw, signer.Certificate.Raw) {
+				return true
+			}
+		}
+	}
+	return false
 }
 
 func (R *Repository) createTempFile() (string, error) {
